@@ -40,9 +40,11 @@ TRUSTED = ['threading.Lock; a writer parked at the lock has executed everything 
            'OrderedDict / dict.update iteration order']
 ASSUMPTIONS = ['an undecodable bytes *element* of a sequence is stored as None (as the code and its OpenTelemetry '
                'origin do); the statement does not single this case out',
-               'code-given process.executable.name is text (a truthy non-text value makes Resource.create raise '
-               'TypeError: theorem c18_create_type_error_witness; unreachable from Deep.start, which gives no '
-               'attributes)',
+               'sequence elements are judged by their exact type (class I(int) instances make a sequence invalid) while a '
+               'scalar value is judged by isinstance, as the code does; subclass instances are outside the Lean model '
+               '(Scalar cannot tell them apart) and are judged by the oracle only',
+               'str() of a sequence attribute used in the fallback service name: the model renders text elements as '
+               "'…' (generators keep quotes and backslashes out of those)",
                'integers sent over the wire fit int64 (wire fidelity is C08)']
 
 HARNESS = os.path.dirname(os.path.dirname(os.path.abspath(__file__)))
@@ -235,22 +237,59 @@ def g_env(rng):
     return env, unmodelled
 
 
-def pen_ok(kvs):
-    """code-given process.executable.name must be text (ASSUMPTIONS)"""
-    out = []
-    for k, v in kvs:
-        if k.get('s') == 'process.executable.name' and v['t'] != 'str':
-            v = {'t': 'str', 'v': 'fromcode'}
-        out.append([k, v])
-    return out
+BLANK_SN = 'C18/empty-service-name-from-plugin'
+
+
+def falsy(v):
+    """is the (valid) attribute value falsy in Python?"""
+    t = v['t']
+    return ((t == 'str' and v['v'] == '') or (t == 'int' and v['v'] == 0) or (t == 'bool' and not v['v'])
+            or (t == 'float' and float(v['r']) == 0.0) or (t == 'seq' and not v['xs']) or (t == 'bytes' and v['hex'] == ''))
+
+
+def blanks_service_name(kvs):
+    return any(k.get('s') == 'service.name' and falsy(v) for k, v in kvs)
+
+
+def named(kvs):
+    """plugin attributes of the main streams never carry an EMPTY service name (that is the separate stream of
+    the finding candidate C18/empty-service-name-from-plugin)"""
+    return [[k, {'t': 'str', 'v': 'from-plugin'} if k.get('s') == 'service.name' and falsy(v) else v] for k, v in kvs]
+
+
+def g_pen(rng):
+    """process.executable.name of any valid type (its text is used in the fallback service name)"""
+    return rng.choice([{'t': 'int', 'v': 5}, {'t': 'int', 'v': 0}, {'t': 'bool', 'v': True}, {'t': 'float', 'r': '1.5'},
+                       {'t': 'float', 'r': '0.0'}, {'t': 'str', 'v': 'px'}, {'t': 'str', 'v': ''},
+                       {'t': 'seq', 'as': 'list', 'xs': [{'t': 'int', 'v': 1}, {'t': 'none'}]},
+                       {'t': 'seq', 'as': 'tuple', 'xs': [{'t': 'str', 'v': 'a'}]},
+                       {'t': 'seq', 'as': 'list', 'xs': []}, codec.enc_scalar(b'exe')])
 
 
 def g_create(rng):
     env, unm = g_env(rng)
-    given = None if rng.random() < 0.35 else pen_ok(distinct_kvs(rng, rng.choice([0, 1, 2, 4]), 0.9))
+    given = None if rng.random() < 0.35 else distinct_kvs(rng, rng.choice([0, 1, 2, 4]), 0.9)
+    if given is not None and rng.random() < 0.35:
+        given = [kv for kv in given if kv[0].get('s') != 'process.executable.name'] + \
+            [[{'s': 'process.executable.name'}, g_pen(rng)]]
+    plugins = [g_res(rng) for _ in range(rng.choice([0, 0, 1, 2, 3]))]
+    for p in plugins:
+        p['attrs'] = named(p['attrs'])
     return {'kind': 'create', 'env': env, 'unmodelled_env': unm, 'given': given,
-            'url': rng.choice(URLS) if given is not None else None,
-            'plugins': [g_res(rng) for _ in range(rng.choice([0, 0, 1, 2, 3]))]}
+            'url': rng.choice(URLS) if given is not None else None, 'plugins': plugins}
+
+
+def g_blank_sn(rng):
+    """separate stream (finding candidate): a plugin resource whose service.name is empty / falsy"""
+    c = g_create(rng) if rng.random() < 0.5 else g_start(rng)
+    blank = rng.choice([{'t': 'str', 'v': ''}, {'t': 'int', 'v': 0}, {'t': 'bool', 'v': False},
+                        {'t': 'seq', 'as': 'list', 'xs': []}])
+    p = {'attrs': [[{'s': 'service.name'}, blank]], 'url': None}
+    if c['kind'] == 'start':
+        p.update(order=rng.choice([None, 0, 3]), behaviour='ok')
+    c['plugins'] = c['plugins'] + [p]
+    c['blank_sn'] = True
+    return c
 
 
 def is_noneish(x):
@@ -268,7 +307,10 @@ def g_start(rng, none_seq=False):
     plugins = []
     for i in range(rng.choice([1, 2, 3] if none_seq else [0, 1, 2, 3, 4])):
         r = g_res(rng, int64=True)
-        r['attrs'] = pen_ok(r['attrs'])
+        r['attrs'] = named(r['attrs'])
+        if rng.random() < 0.2:
+            r['attrs'] = [kv for kv in r['attrs'] if kv[0].get('s') != 'process.executable.name'] + \
+                [[{'s': 'process.executable.name'}, g_pen(rng)]]
         if none_seq and i == 0:
             r['attrs'] = r['attrs'] + [[{'s': 'tags'}, {'t': 'seq', 'as': 'list', 'xs': [
                 {'t': 'str', 'v': 'a'}, rng.choice([{'t': 'none'}, codec.enc_scalar(b'\xff')])]}]]
@@ -283,7 +325,9 @@ def gen(rng, tier):
     k = 0
     while True:
         k += 1
-        if k % 16 == 0:
+        if k % 160 == 80:
+            yield g_blank_sn(rng)
+        elif k % 16 == 0:
             yield g_create(rng)
         elif k % 64 == 24:
             yield g_start(rng, none_seq=True)
@@ -769,7 +813,8 @@ def ref_create(case):
     d = dict(r['items'])
     if not d.get('service.name'):
         pen = d.get('process.executable.name')
-        fb = {'items': [('service.name', 'unknown_service:' + (pen if pen else 'python'))], 'url': case.get('url') or ''}
+        fb = {'items': [('service.name', 'unknown_service:' + (str(pen) if pen else 'python'))],
+              'url': case.get('url') or ''}
         r, _ = ref_merge(r, fb)
     return r
 
@@ -968,8 +1013,17 @@ def oracle_created(case, created, final, plugin_refs, v):
         v.append(f'final resource: keys {bad[:4]} differ from "plugins merged in order, later overrides earlier"')
     if final['url'] != cur['url']:
         v.append(f'final schema url {final["url"]!r}, expected {cur["url"]!r}')
+    check_named(created, 'created', v)
+    check_named(final, 'final', v)
     check_clean(final['attrs'], None, v)
     return sn
+
+
+def check_named(res, what, v):
+    """"always contains … a service name": present and not empty"""
+    sn = as_dict(res['attrs']).get(json.dumps({'s': 'service.name'}, sort_keys=True))
+    if sn is not None and falsy(dict(sn, hex='x') if sn['t'] == 'bytes' else sn):
+        v.append(f'{what} resource has an empty service name: {sn}')
 
 
 def oracle_create(case, obs):
@@ -1021,6 +1075,7 @@ def oracle_start(case, obs):
     for k in SDK_KEYS + ['service.name']:
         if json.dumps({'s': k}, sort_keys=True) not in as_dict(obs['final']['attrs']):
             vv.append(f'client resource lacks {k}')
+    check_named(obs['final'], 'client', vv)
     if 'wire_raised' in obs:
         vv.append('the client resource cannot be converted for the poll request: ' + obs['wire_raised'])
     else:
